@@ -17,6 +17,11 @@ def drawUntil (rn : Rat → Rat) (maxv : Nat) (accept : Nat → Bool) : Nat → 
 
 def loopFuel : Nat := 2147483648
 
+/-- is there an index i with lo ≤ i < lo + cnt satisfying p?  (first-hit search, no allocation) -/
+def existsFrom (p : Nat → Bool) : Nat → Nat → Bool
+  | _, 0 => false
+  | lo, cnt+1 => if p lo then true else existsFrom p (lo + 1) cnt
+
 structure Fill where
   seed : Nat
   u : Array Nat
@@ -27,7 +32,7 @@ structure Fill where
 /-- one "1" of source column: the `for (k = 0; k < left_degree; k++)` body -/
 def addOne (rn : Rat → Rat) (r total : Nat) (f : Fill) : Option Fill :=
   -- are valid choices left in u[t..]?
-  let avail := (List.range' f.t (total - f.t)).any fun i => !(f.col.contains (f.u.getD i 0))
+  let avail := existsFrom (fun i => !(f.col.contains (f.u.getD i 0))) f.t (total - f.t)
   if avail then
     match drawUntil rn (total - f.t) (fun x => !(f.col.contains (f.u.getD (f.t + x) 0))) loopFuel f.seed with
     | none => none
@@ -59,9 +64,14 @@ def fillCols (rn : Rat → Rat) (k r N1 : Nat) (seed : Nat) : Option (Nat × Lis
       | some f' => some (f', cols ++ [f'.col])) (some (({ seed := seed, u := u0, t := 0, col := [], uneven := 0 } : Fill), ([] : List (List Nat))))
   |>.map fun (f, cols) => (f.seed, cols, f.uneven)
 
-/-- source entries of row i given the per-column row lists, ascending -/
-def rowOf (cols : List (List Nat)) (i : Nat) : List Nat :=
-  (List.range cols.length).filter fun j => (cols.getD j []).contains i
+/-- per-row source entries (ascending) from the per-column row lists: columns are visited from the last
+to the first and prepended -/
+def rowsOf (cols : List (List Nat)) (r : Nat) : List (List Nat) :=
+  let n := cols.length
+  let arr : Array (List Nat) := (cols.reverse.zipIdx).foldl (fun (a : Array (List Nat)) (p : List Nat × Nat) =>
+    let j := n - 1 - p.2
+    p.1.foldl (fun a i => a.modify i (fun l => j :: l)) a) (Array.replicate r [])
+  arr.toList
 
 /-- rows with fewer than two source entries get extra ones -/
 def fixRows (rn : Rat → Rat) (k : Nat) : List (List Nat) → Nat → Nat → List (List Nat) → Option (Nat × List (List Nat) × Nat)
@@ -99,7 +109,7 @@ def create (rn : Rat → Rat) (g : Nat) (k r N1 seed : Nat) : Nat × Option Matr
   match fillCols rn k r N1 s0 with
   | none => (s0, none)
   | some (s1, cols, uneven) =>
-    let srcRows := (List.range r).map (rowOf cols)
+    let srcRows := rowsOf cols r
     match fixRows rn k srcRows s1 0 [] with
     | none => (s1, none)
     | some (s2, rows2, added) =>
